@@ -49,7 +49,7 @@ def oracle_fn_for(ctx):
 
 
 def run(ctx):
-    proofs_ok = _data.prepare(ctx, "C08", ["Data/C08Proofs.vo"])
+    proofs_ok = _data.prepare(ctx, "C08", ["Data/C08Proofs.vo", "Data/Batch.vo"])
     runs = _data.all_runs(ctx, ["C08", "C09"])
     all_mism, all_fail, total, distinct, samples = [], [], 0, set(), []
     orc = oracle_fn_for(ctx)
